@@ -10,6 +10,8 @@ package primary
 // $Rin[b]  - block code b names a readable (written, not deleted) record
 // $Rkey[b] - its full key, $Rval[b] - its value.
 // $Rused[b] - block code b has been handed out by Put at some time.
+// $pending  - some record handed out by Put has not been written to the primary files yet
+//             (flush ordering D1, DESIGN.md §4 C03).
 // Callers are verified against this contract. It is an abstract (refinement
 // gap GAP-2) contract: the implementations are verified against concrete
 // pool/position contracts, not against this ghost state.
@@ -19,6 +21,7 @@ package primary
 //@   ghost field $Rkey (Array Int Bytes)
 //@   ghost field $Rval (Array Int Bytes)
 //@   ghost field $Rused (Array Int Bool)
+//@   ghost field $pending Bool
 
 //@ func (p PrimaryStorage) IndexKey(key []byte) (ik []byte, err error)
 //@   trusted interface contract: index key = digest of the multihash/CID, a pure function of the key bytes (assumed of go-multihash / go-cid)
@@ -42,7 +45,9 @@ package primary
 
 //@ func (p PrimaryStorage) Put(key []byte, value []byte) (blk types.Block, err error)
 //@   trusted interface contract (GAP-2): a new record at a location that was neither readable nor named before
-//@   modifies p.$Rin, p.$Rkey, p.$Rval, p.$Rused
+//@   modifies p.$Rin, p.$Rkey, p.$Rval, p.$Rused, p.$pending
+//@   ensures err == nil ==> p.$pending
+//@   ensures err != nil ==> p.$pending == old(p.$pending)
 //@   ensures err == nil ==> !old(p.$Rused)[keyof(blk)] && p.$Rused == old(p.$Rused)[keyof(blk) := true]
 //@   ensures err != nil ==> p.$Rused == old(p.$Rused)
 //@   ensures err != types.ErrKeyExists
@@ -52,10 +57,15 @@ package primary
 
 //@ func (p PrimaryStorage) Flush() (w types.Work, err error)
 //@   trusted interface contract (GAP-2): flushing does not change what is readable
+//@   modifies p.$pending
+//@   ensures err == nil ==> !p.$pending
+//@   ensures old(!p.$pending) ==> !p.$pending
 //@ func (p PrimaryStorage) Sync() (err error)
 //@   trusted interface contract
 //@ func (p PrimaryStorage) Close() (err error)
-//@   trusted interface contract
+//@   trusted interface contract: Close flushes
+//@   modifies p.$pending
+//@   ensures err == nil ==> !p.$pending
 //@ func (p PrimaryStorage) OutstandingWork() (w types.Work)
 //@   trusted interface contract
 //@   pure
